@@ -19,7 +19,7 @@ package core
 //@   modifies c.inMsgQueue, c.inFragQueue, c.outFragQueue, c.wcount, c.wlog, elastic.RingBuffer.rb, ring.Buffer.r, ring.Buffer.w, ring.Buffer.isEmpty
 //@   requires c.loop != nil
 //@   ensures old(c.opened) ==> c.wcount == old(c.wcount) + 1 && c.wlog[old(c.wcount)] == data
-//@   ensures forall k int :: 0 <= k && k < old(c.wcount) ==> c.wlog[k] == old(c.wlog[k])
+//@   ensures forall k int :: k < old(c.wcount) ==> c.wlog[k] == old(c.wlog[k])
 //@   ensures c.opened ==> (old(c.opened) && c.inMsgQueue == old(c.inMsgQueue) && c.inFragQueue == old(c.inFragQueue) && c.outFragQueue == old(c.outFragQueue) && err == nil)
 //@   ensures closedfx(c)
 
@@ -28,8 +28,8 @@ package core
 //@   modifies c.opened, c.buffer, c.localAddr, c.remoteAddr, c.pollAttachment, c.initStep, c.initStatus, c.isSlave, c.connType
 //@   modifies c.inMsgQueue, c.inFragQueue, c.outFragQueue, c.wcount, c.wlog, elastic.RingBuffer.rb, ring.Buffer.r, ring.Buffer.w, ring.Buffer.isEmpty, elems(bs)
 //@   requires c.loop != nil
-//@   ensures old(c.opened) ==> c.wcount == old(c.wcount) + len(bs) && (forall k int :: 0 <= k && k < len(bs) ==> c.wlog[old(c.wcount) + k] == old(bs[k]))
-//@   ensures forall k int :: 0 <= k && k < old(c.wcount) ==> c.wlog[k] == old(c.wlog[k])
+//@   ensures old(c.opened) ==> c.wcount == old(c.wcount) + len(bs) && (forall i int :: old(c.wcount) <= i && i < old(c.wcount) + len(bs) ==> c.wlog[i] == old(bs[i - c.wcount]))
+//@   ensures forall k int :: k < old(c.wcount) ==> c.wlog[k] == old(c.wlog[k])
 //@   ensures c.opened ==> (old(c.opened) && c.inMsgQueue == old(c.inMsgQueue) && c.inFragQueue == old(c.inFragQueue) && c.outFragQueue == old(c.outFragQueue) && err == nil)
 //@   ensures closedfx(c)
 
